@@ -163,6 +163,17 @@ func runC01(c *core.Ctx) *core.Outcome {
 		if pg.Prefix != "" {
 			o.Probes["sized_page_with_error_prefix"]++
 		}
+		if !ss.Cont && !us.Cont && us.ExecErr == "" && us.FlushErr == "" && i < len(U.PosLog) && U.PosLog[i].NCalls == len(S.CallLog) {
+			// the final output of a session: the page of the end node followed by the exit value. If the
+			// page does not fit, the render has to fail - handing out the exit value alone is a page
+			// truncated to nothing without any error
+			ug := app.ParsePage(us.Out)
+			if ug.OK && ug.Node != "" && !strings.Contains(ss.Out, "@"+ug.Node) && ss.Out != "" {
+				return finishC01(o, c, wu, ws, size).Fail("silent-truncation", i, map[string]string{"at": "session-end-page-dropped"},
+					"request %d input %s OutputSize=%d: the session ends at node %s; without a limit the client receives %s, with the limit it receives %s and no error: the page is missing", i, short(string(in)), size, ug.Node, short(us.Out), short(ss.Out))
+			}
+			o.Probes["final_output_compared_with_unsized"]++
+		}
 		if !ss.Cont || !us.Cont || us.ExecErr != "" {
 			break
 		}
